@@ -340,6 +340,9 @@ def _iterable(it):
     if is_t(it, "call") and it[1] in (G("map"), G("jax.util.safe_map")) and len(it[2]) == 2 and not it[3] and (is_t(it[2][0], "attr") or is_t(it[2][0], "global")):
         xs = _iterable(it[2][1])
         return ("fam", xs, ("call", it[2][0], (mk_elem(xs),), ()))
+    # jnp.arange(len(xs)) iterated is range(len(xs)) iterated
+    if is_t(it, "call") and it[1] == G("jax.numpy.arange") and not it[3] and len(it[2]) == 1 and is_t(it[2][0], "call") and it[2][0][1] == G("len") and len(it[2][0][2]) == 1:
+        return ("positions", it[2][0][2][0], C(0))
     # for i in range(len(xs)) / range(a, len(xs)): i runs over the positions of xs (from a on); xs[i] is then the element (see Evaluator index rule)
     if is_t(it, "call") and it[1] == G("range") and not it[3] and len(it[2]) in (1, 2) and is_t(it[2][-1], "call") and it[2][-1][1] == G("len") and len(it[2][-1][2]) == 1:
         xs = it[2][-1][2][0]
@@ -391,6 +394,9 @@ def norm_it(it):
     if is_t(it, "phi"):
         b = fam_base(it)
         return b if b is not None else it
+    if is_t(it, "zip") and len(it[1]) == 2 and any(it[1][1 - i_] == ("positions", it[1][i_], C(0)) for i_ in (0, 1)):
+        # zip(xs, range(len(xs))) / zip(range(len(xs)), xs) pairs every element with its position: enumerate(xs)
+        return ("enumerate", it[1][0] if it[1][1] == ("positions", it[1][0], C(0)) else it[1][1])
     if is_t(it, "zip") and it[1]:
         bases = [fam_base(x) if fam_base(x) is not None else x for x in it[1]]
         if all(b == bases[0] for b in bases) and any(fam_base(x) is not None for x in it[1]):
@@ -425,6 +431,9 @@ def mk_call(f, args, kw):
     args = tuple(args)
     if f == G("jax.random.split") and len(args) == 2 and args[1] == C(2) and not kw:
         args = args[:1]  # split(key, 2) is split(key)
+    if (f == G("dict.fromkeys") or f == ("attr", G("dict"), "fromkeys")) and len(args) == 2 and not kw:
+        it_ = norm_it(_iterable(args[0]))
+        return ("dictfam", it_, mk_elem(it_), args[1])  # dict.fromkeys(ks, v) is {k: v for k in ks}
     if not args and not kw and is_t(f, "attr") and f[2] in ("items", "keys", "values") and is_t(f[1], "dictfam"):
         d = f[1]
         return ("fam", d[1], {"items": mk_tuple((d[2], d[3])), "keys": d[2], "values": d[3]}[f[2]])
@@ -1949,6 +1958,10 @@ class _Ctx:
                     return mk_phi(args[0], self.call_value(args[1], args[3:], {}), self.call_value(args[2], args[3:], {}))
                 if (short, name) == ("Pytree", "partial") and not kwargs:
                     return ("closure_maker", mk_tuple(args))  # Pytree.partial(*dyn)(fn) is Closure(dyn, fn)
+        # array methods are the jnp functions: a.sum() is jnp.sum(a) (for receivers that certainly are arrays: stacked / arithmetic / jax results)
+        if name in ("sum", "mean", "prod", "all", "any") and "**" not in kwargs and not any(is_t(x, "star") for x in args) and (
+                is_t(obj, "stack") or is_t(obj, "bin") or is_t(obj, "where") or (is_t(obj, "call") and is_t(obj[1], "global") and obj[1][1].startswith("jax."))):
+            return ("call", G("jax.numpy." + name), (obj,) + tuple(args), tuple(sorted(kwargs.items())))
         # x.at[i].set(v)
         if name == "set" and is_t(obj, "index") and is_t(obj[1], "attr") and obj[1][2] == "at" and len(args) == 1:
             return ("atset", obj[1][1], obj[2], args[0])
